@@ -14,7 +14,7 @@ Inductive cclass :=
 | CClose (id0 : bool) (reason_ok : bool)
 | CInit (id : bytes) (wf : bool) (refused : bool) (oldv : bool)
 | CReq (id : bytes) (wf : bool) (known : bool)
-| CUnmodelled.       (* a method name that reaches an _on_* attribute which is not a request handler *)
+| CUnmodelled.       (* (an init request decoded to something that is not an init: impossible, kept for totality) *)
 
 (* str.lower() on an ASCII method name *)
 Definition lower_char (c : ascii) : ascii :=
@@ -24,14 +24,12 @@ Definition lower (s : bytes) : bytes := map lower_char s.
 Definition post_init_meta_methods : list meth :=
   [MNUS; MNUA; MNNS; MNSC; MGIS; MGSC; MGIT; MGUI; MNUM; MNNT; MNTC; MMDA; MMSA; MMDC].
 
-(* MetadataProviderServer._handle_request: getattr(self, "_on_" + method_name.lower()) *)
+(* MetadataProviderServer._handle_request: the handler of the protocol method whose name equals method_name up to
+   case (the init method excepted); every other name is an unknown request, discarded with a warning — in
+   particular names such as "mpi", "init" or "request_manager_started", which must not reach the attributes
+   _on_mpi / _on_init / _on_request_manager_started of the server object. *)
 Definition meta_handler_of (name : bytes) : option meth :=
   find (fun m => bytes_eqb (lower (meth_name m)) (lower name)) post_init_meta_methods.
-
-(* other attributes of the server object whose name starts with _on_ *)
-Definition meta_other_on_attr (name : bytes) : bool :=
-  existsb (fun a => bytes_eqb (lower name) (bs a))
-          ["mpi"; "init"; "request_manager_started"]%string.
 
 Definition init_class (k : server_kind) (id : bytes) (d : list bytes) : cclass :=
   match read_request (init_method k) d with
@@ -67,7 +65,7 @@ Definition classify (k : server_kind) (line : bytes) : cclass :=
         | KMeta =>
             match meta_handler_of name with
             | Some m => CReq id (match read_request m d with POk _ => true | PErr _ => false end) true
-            | None => if meta_other_on_attr name then CUnmodelled else CReq id true false
+            | None => CReq id true false
             end
         end
   end.
